@@ -4,6 +4,7 @@ package sctp
 
 import (
 	"errors"
+	"fmt"
 	"io"
 )
 
@@ -107,6 +108,12 @@ func vh_C09_L3_close_idempotent() {
 func vh_C09_L4_write_failure() {
 	a, conn, _ := vTeardownPreState()
 	conn.failWrites = true
+	switch vPick(3) { // whatever the error is, including a half-closed transport reporting EOF
+	case 1:
+		conn.writeErr = io.EOF
+	case 2:
+		conn.writeErr = fmt.Errorf("write: %w", io.EOF)
+	}
 	a.setState(established)
 	a.lock.Lock()
 	a.sendActiveHeartbeatLocked() // something to write
